@@ -201,6 +201,12 @@ impl varlink::Interface for ScriptIface {
                 // raw error replies (harness-only ops, not part of the modelled script language):
                 //   E:<name>   error <name> without parameters;   EP:<name>   with parameters of an unexpected shape
                 o if o.starts_with("E:") => call.reply_struct(Reply::error(o[2..].to_string(), None))?,
+                //   Ef:<name>  error <name> with parameters, spelling out "continues": false (legal: a final reply may say so)
+                o if o.starts_with("Ef:") => call.reply_struct(Reply {
+                    continues: Some(false),
+                    error: Some(o[3..].to_string().into()),
+                    parameters: Some(json!({"why": "because", "tag": tag})),
+                })?,
                 o if o.starts_with("EP:") => call.reply_struct(Reply::error(
                     o[3..].to_string(),
                     Some(json!({"method": 42, "interface": 42, "parameter": 42})),
